@@ -70,7 +70,7 @@ Print Assumptions C01_engine_forgets.
 Print Assumptions C01_engine_stream.
 
 (* non-vacuity: what the builder produces for programs over these constructs is a pristine chain *)
-Definition tc0 := ValueM.mktc 2 3 4 5.
+Definition tc0 := ValueM.mktc 2 3 4 5 [].
 Definition P0 := mkparams tc0 (fun _ => 1%N).
 
 Definition built (t : tree) : option mach :=
